@@ -283,6 +283,90 @@ def check_case(run, nodes, pattern, g, scratch):
     return {"accepted": True, "nodes_ran": ran}
 
 
+_SERIES_KEYS = {"x_values", "y_values", "t_values", "grid", "x", "res", "y", "t"}
+
+
+def same_object_case(run, g, scratch, i):
+    """The documented workflow inspects a configuration object and then runs that very object (``semantiva run`` does).
+    Inspection is a static analysis: it must not change what the object means.  Differential oracle, no model needed:
+    (1) a second inspection of the inspected object reports the same required / created keys, (2) running the inspected
+    object gives what running a fresh copy gives (outcome, exception class, final context, data).  A mismatch is only
+    reported when two fresh copies agree with each other (the pipeline is reproducible)."""
+    from semantiva.inspection import build_pipeline_inspection, validate_pipeline
+    from semantiva.pipeline.pipeline import Pipeline
+    from vlib import account, rewrite
+
+    case = rewrite.config_case(g, i)
+    nodes = copy.deepcopy(case["nodes"])
+    if g.chance(0.6):
+        fn = rewrite.fitting_node(g)
+        r = g.rng.random()
+        if r < 0.45:
+            fn["parameters"].pop("x_values", None), fn["parameters"].pop("y_values", None)
+            fn["parameters"].update(independent_var_key=g.rng.choice(["t_values", "grid", "x"]), dependent_var_key=g.rng.choice(["res", "y"]))
+            if g.chance(0.5):
+                fn["parameters"]["context_key"] = g.rng.choice(["fit.coeffs", "fit_out"])
+        elif r < 0.9:
+            fn["parameters"]["context_key"] = g.rng.choice(["fit.coeffs", "fit_out", "line_fit"])
+        nodes.insert(g.rng.randint(0, len(nodes)), fn)
+    inspected = copy.deepcopy(nodes)
+    try:
+        insp1 = build_pipeline_inspection(inspected)
+        validate_pipeline(insp1)
+        if any(ni.invalid_parameters for ni in insp1.nodes):
+            raise ValueError("invalid parameters")
+    except Exception:  # rejected configurations are outside the property
+        run.count("same_object_rejected")
+        return
+    run.count("same_object_cases")
+    facts1 = (sorted(insp1.required_context_keys), [(sorted(ni.created_keys), sorted(ni.suppressed_keys)) for ni in insp1.nodes])
+    witness = {"nodes": nodes, "kind": "same_object"}
+    try:
+        insp2 = build_pipeline_inspection(inspected)
+        facts2 = (sorted(insp2.required_context_keys), [(sorted(ni.created_keys), sorted(ni.suppressed_keys)) for ni in insp2.nodes])
+    except Exception as exc:
+        facts2 = f"raised {type(exc).__name__}: {exc}"[:200]
+    if facts1 != facts2:
+        run.violation("inspected_object_second_inspection_differs",
+                      f"inspecting the same configuration object twice reports different facts: {str(facts1)[:200]} vs {str(facts2)[:200]}", witness)
+        return
+    ctx = dict(case.get("ctx") or {})
+    for k in facts1[0]:
+        if k not in ctx:
+            ctx[k] = [0.0, 1.0, 2.0, 3.0] if k in _SERIES_KEYS else ([1.0, 3.0, 5.0, 7.5] if k.endswith("_values") else g.val())
+    for k in ("x_values", "t_values", "grid", "x", "t"):
+        if k in ctx and k in facts1[0]:
+            ctx[k] = [0.0, 1.0, 2.0, 3.0]
+    for k in ("y_values", "res", "y"):
+        if k in ctx and k in facts1[0]:
+            ctx[k] = [1.0, 3.0, 5.0, 7.5]
+    data = case.get("data")
+
+    def outcome(r):
+        return (r.ok, r.exc_name if not r.ok else None, r.stage if not r.ok else None, repr(r.ctx) if r.ok else None, repr(r.data) if r.ok else None)
+
+    fresh = outcome(account.real_run(nodes, data, ctx, scratch=scratch))
+    try:
+        pipe = Pipeline(inspected)
+        mine = outcome(account.real_run(nodes, data, ctx, scratch=scratch, pipeline=pipe))
+    except Exception as exc:
+        mine = (False, type(exc).__name__, "build", None, None)
+    run.count("same_object_runs")
+    if fresh[0]:
+        run.count("same_object_fresh_run_ok")
+    if mine == fresh:
+        return
+    again = outcome(account.real_run(nodes, data, ctx, scratch=scratch))
+    if again != fresh:
+        run.count("same_object_pipeline_not_reproducible_skipped")
+        return
+    what = "outcome" if mine[:3] != fresh[:3] else ("context" if mine[3] != fresh[3] else "data")
+    run.violation(f"inspected_object_runs_differently:{what}",
+                  f"inspection+validation accepted the configuration; running the inspected object gives {str(mine)[:160]} "
+                  f"but a fresh copy of the same configuration gives {str(fresh)[:160]} (context supplies every reported required key)",
+                  dict(witness, ctx=ctx, data=data))
+
+
 def cli_flow_case(run, g, scratch):
     """The same soundness clause at the CLI: an accepted configuration whose required keys are all supplied (some via
     --context, some via the run space) must complete EVERY planned run — also when a node suppresses a supplied key."""
@@ -343,11 +427,14 @@ def run(run):
             run.case(canon_hash(fc["nodes"]), nontrivial, sample={"pattern": fc["pattern"], "nodes": fc["nodes"], "accepted": res["accepted"]} if i < 4 else None)
             if i % 25 == 0:
                 cli_flow_case(run, g, scratch)
+            if i % 4 == 0:
+                same_object_case(run, g, scratch, i)
     finally:
         shutil.rmtree(scratch, ignore_errors=True)
     run.floor("accepted", 50)
     run.floor("node_facts_checked", 100)
     run.floor("node_probe_hits", 100)
+    run.floor("same_object_fresh_run_ok", 10)
     run.assumptions += ["the cause of a run-time failure is taken from the reference model (vlib/refmodel.py), tied to the real semantics by C01",
                         "initial data is chosen compatible with the first data node (the property quantifies over contexts, not over ill-typed initial data)"]
 
